@@ -168,7 +168,16 @@ def meta_doc(name=b"t", piece_length=4, files=None, length=None, nhashes=None, e
     if files is not None:
         fl = []
         for f in files:
-            ent = [(b"length", f[0]), (b"path.utf-8" if path_utf8 else b"path", [c for c in f[1]])]
+            mode = f[2] if len(f) > 2 else ("utf8" if path_utf8 else "path")
+            comps = [c for c in f[1]]
+            if mode == "path":
+                ent = [(b"length", f[0]), (b"path", comps)]
+            elif mode == "utf8":
+                ent = [(b"length", f[0]), (b"path.utf-8", comps)]
+            elif mode == "both":                      # the utf-8 variant wins; `path` holds something else
+                ent = [(b"length", f[0]), (b"path", [b"WRONG"] + comps[1:]), (b"path.utf-8", comps)]
+            else:                                     # "both-mistyped": a non-list path.utf-8 is ignored
+                ent = [(b"length", f[0]), (b"path", comps), (b"path.utf-8", b"not-a-list")]
             fl.append(D(*ent))
         info.append((b"files", fl))
     info += list(extra_info)
@@ -280,6 +289,10 @@ def gen_meta(rng):
         kw.pop("length", None); kw.pop("files", None); tag = "neither length nor files"
     elif defect == 13 and multi:
         kw["path_utf8"] = True; tag = "path.utf-8 only"
+    elif defect in (20, 21, 22) and multi:
+        # every file decides on its own between path / path.utf-8 / both / a mistyped utf-8 variant
+        kw["files"] = [(f[0], f[1], rng.choice(["path", "utf8", "both", "both-mistyped"])) for f in kw["files"]]
+        tag = "path variants mixed per file"
     elif defect == 14:
         extra_info.append((b"length", b"str")) if multi else extra_info.append((b"files", b"str")); tag = "other key present but mistyped"
     elif defect == 15 and multi:
